@@ -255,5 +255,6 @@ func ParamOr(name string, def int) int {
 func NatsSubs() []any              { return nil }
 func NatsUnsubscribed(sub any) int { return 0 }
 func NatsFailPublish(fail bool)    {}
+func NatsFailUnsubscribe(fail bool) {}
 func ArmedTimers() int             { return 0 }
 func FireTimer(k int) bool         { return false }
